@@ -77,6 +77,14 @@ func judgeBatch(cs *BatchCase, o *BatchObs) []scen.Finding {
 	if o.CallbacksAfterReturn > 0 && !o.ErrNil {
 		add("C04", "callback-after-failed-run:"+cc, "the run had already returned its error (%s), yet %d further user callbacks (exec attempts / fallbacks) were invoked afterwards on behalf of that run", o.ErrText, o.CallbacksAfterReturn)
 	}
+	if len(o.FBEarly) > 0 {
+		add("C02", "batch-fallback-before-budget-exhausted:"+cc, "%s — the fallback is owed only when all N attempts have failed (cancelled: %v)", o.FBEarly[0], cancelled)
+		add("C07", "fallback-before-budget-exhausted:"+cc, "%s", o.FBEarly[0])
+	}
+	// a batch whose prep succeeded and whose context is alive calls post; only post's own error can fail the run
+	if !cancelled && !cs.PostFail && !o.ErrNil {
+		add("C06", "run-failed-without-cancellation:"+cc, "the batch's prep succeeded, the context was never cancelled and post does not fail, yet the run returned %q (post calls: %d) — item failures belong into the result slots (n=%d c=%d %s, item errors wrap a context error: %v)", o.ErrText, o.PostCalls, n, cs.C, mode, cs.CtxLike)
+	}
 	// ---------------------------------------------------------------- C06: post once, after settlement, positional
 	if o.ErrNil {
 		if o.PostCalls != 1 {
@@ -291,10 +299,20 @@ func judgeBatch(cs *BatchCase, o *BatchObs) []scen.Finding {
 				}
 			}
 		}
-		if cs.Gated && !cancelled && !cs.Stop && cs.WaitMs == 0 && cs.WaitNs == 0 && !cs.WaitHour {
+		firstFail := -1 // logical time of the first failed attempt / fallback (stop mode: the limit is judged before it only)
+		for _, e := range o.Events {
+			if (e.Kind == "exec-ret" && !e.OK) || (e.Kind == "fallback" && !e.OK) {
+				firstFail = e.Seq
+				break
+			}
+		}
+		if cs.Gated && !cancelled && cs.WaitMs == 0 && cs.WaitNs == 0 && !cs.WaitHour {
 			for pi, p := range o.Points {
 				if p.PostCalls > 0 {
 					continue
+				}
+				if cs.Stop && firstFail >= 0 && p.AfterSeq > firstFail {
+					break
 				}
 				want := minInt(lim, len(p.Parked)+(n-p.Started))
 				if len(p.Parked) != want {
@@ -302,7 +320,13 @@ func judgeBatch(cs *BatchCase, o *BatchObs) []scen.Finding {
 					if len(p.Parked) > want {
 						key = "over-limit-q:" + cc
 					}
-					add("C08", key, "quiescent point %d: %d executions parked, want min(c=%d, unfinished=%d)=%d — the concurrency limit is not fully usable (c blocked executions must run simultaneously)", pi, len(p.Parked), lim, len(p.Parked)+(n-p.Started), want)
+					add("C08", key, "quiescent point %d: %d executions parked, want min(c=%d, unfinished=%d)=%d — the concurrency limit is not fully usable (c blocked executions must run simultaneously) [%s mode]", pi, len(p.Parked), lim, len(p.Parked)+(n-p.Started), want, mode)
+					for _, k := range p.Parked {
+						if k%100 == 99 && len(p.Parked) < want {
+							add("C07", "fallback-holds-up-other-items:"+cc, "quiescent point %d: item %d sits in its fallback and only %d of the %d items that could be in progress are — a failing item's fallback keeps other items from being processed", pi, k/100, len(p.Parked), want)
+							break
+						}
+					}
 					break
 				}
 			}
@@ -353,6 +377,9 @@ func judgeBatch(cs *BatchCase, o *BatchObs) []scen.Finding {
 		}
 		if o.ErrNil && o.PostCalls != 1 {
 			add("C11", "success-without-post", "cancelled batch returned success but post was called %d times", o.PostCalls)
+		}
+		if o.ErrNil && o.PostCalls == 1 && (o.PostLenR != n || o.PostLenI != n) {
+			add("C11", "post-without-slots:"+cs.Shape, "cancelled batch returned success; post was given %d items and %d results for the %d items prep produced — every item that was not executed must still be there, carrying an error", o.PostLenI, o.PostLenR, n)
 		}
 		sc := o.CancelSeq
 		if cs.Cancel.Kind == "real-deadline" {
